@@ -27,6 +27,11 @@ def scale_sweep(tier):
                  lam_form="float", degenerate=kind, N=3, W=3 if kind != "few_points" else 5)
         c["lens"] = [c["lens"][0]] if kind != "few_points" else [26]
         cfgs.append(c)
+    # the recorded finding F8 (one-window cluster under the unbiased estimator): keep its witness in every tier
+    cfgs.append({"id": 6237, "fe": "single", "N": 1, "W": 1, "K": 4, "limit": 10, "m": 1, "biased": False, "eps": 0,
+                 "beta": 5.0, "lam": 1.0, "n_regimes": 2, "scale": 1000.0, "lens": [281], "P": 2, "mp": False,
+                 "data_seed": 811919670, "rng_seed": 396671437, "lam_form": "float", "readonly": True,
+                 "fortran": True, "beta_form": "vector"})
     return runs.run_many(cfgs)
 
 
